@@ -825,7 +825,18 @@ def r12_7(ctx, prog, crate):
               "taken for the type's own path", b.where(0))
 
 
+def r12_8(ctx, prog, crate):
+    """(= R17.3) One runnable benchmark per types x consts combination: the BenchArgs shared by all instantiations of a
+    function caches only what does not depend on the instantiation (the argument slice); the typed bench function is taken
+    from the instantiation's own closure on every runner() call - a cached runner makes every entry run the first one."""
+    from .C17 import r17_3, r17_1
+    from .common import Renamed
+    r17_1(Renamed(ctx, "R12.8"), prog, crate)
+    r17_3(Renamed(ctx, "R12.8"), prog, crate)
+
+
 def run(ctx, prog, crate):
+    r12_8(ctx, prog, crate)
     r12_7(ctx, prog, crate)
     r12_6(ctx, prog, crate)
     r12_4(ctx, prog, crate)
